@@ -1,4 +1,5 @@
-"""Run every seeded change in /verif/seeded against the check of the property it breaks (scratch copy of /repo with the
+"""usage: python3-vt selftest/run_seeded.py [-j N] [S28 S29 ...]
+Run every seeded change in /verif/seeded against the check of the property it breaks (scratch copy of /repo with the
 patch applied; /repo itself is not touched) and write seeded/RESULTS.json + a table for DESIGN.md.
 usage: python3-vt selftest/run_seeded.py [-j N]"""
 import json, os, re, shutil, subprocess, sys, tempfile, concurrent.futures as cf
@@ -27,7 +28,14 @@ def run(sid):
 def main():
     j = int(sys.argv[sys.argv.index("-j") + 1]) if "-j" in sys.argv else 3
     sids = sorted(x for x in os.listdir(SEEDED) if os.path.isdir(os.path.join(SEEDED, x)))
+    only = [a for a in sys.argv[1:] if a.startswith("S")]
     out = {}
+    if only:
+        # re-run a subset and merge into the stored results
+        sids = [x for x in sids if any(x.startswith(o) for o in only)]
+        rp = os.path.join(SEEDED, "RESULTS.json")
+        if os.path.exists(rp):
+            out = json.load(open(rp))
     with cf.ThreadPoolExecutor(j) as pool:
         for sid, prop, rc, failed, viol in pool.map(run, sids):
             proved = sorted({re.sub(r"~\d+$", "", f) for f, lab in failed if lab == "proved"})
